@@ -3,7 +3,8 @@
 Writer: for every sample-granular AIFF encoding the library accepts (vlib/formats.py) x endianness option x channels
 x sample rate x frame count, a session  open / dump / write / header update / dump / write / close / dump / re-open
 runs on the library (memory SF_VIRTUAL_IO) and on the model; every file byte before the audio data and after it is
-compared (nothing is masked: the PEAK time stamp is the harness clock), the audio region is compared by length.
+compared (nothing is masked: the PEAK time stamp is the harness clock); the audio region is compared with the model's own
+encoding of the samples (Enc.encodeAll, up to 8 KiB per session; by length beyond).
 Independently of the model the C04 predicate is evaluated on the library's own transcript (re-open info, FORM and SSND
 size fields against the real length); that decides between `VIOLATION … replay` and `… no-failing-input-found`.
 
@@ -110,7 +111,10 @@ class Job:
         ops = ["d"]
         for i, p in enumerate(self.parts):
             if p > 0:
-                op = ("W" if self.auto else "w") + str(p * self.bw)
+                if self.n * self.bw <= 8192:      # typed write: the model encodes the samples itself (SfModel/AiffAudio.lean)
+                    op = ("X" if self.auto else "x") + self.ty + "@" + self.hexvals(self.vals[i])
+                else:
+                    op = ("W" if self.auto else "w") + str(p * self.bw)
                 if self.flt:
                     op += ":" + "/".join("%08x,%d" % pk for pk in self.peaks_after(i))
                 ops.append(op)
@@ -252,6 +256,10 @@ def writer_campaign(ctx, fmts, quick):
                     diffs.append("%s: header byte %d is %02x, model %02x (impl %s model %s)" % (where, x, b[x], h[x], b[:len(h)].hex(), h.hex()))
                 elif t and b[len(b) - len(t):] != t:
                     diffs.append("%s: tail %s, model %s" % (where, b[len(b) - len(t):].hex(), t.hex()))
+                elif "data" in m:
+                    stats["audio_bytes_compared"] += dl
+                    if b[len(h):len(h) + dl] != bytes.fromhex(m["data"]):
+                        diffs.append("%s: audio bytes %s, model (Enc.encodeAll) %s" % (where, b[len(h):len(h) + dl].hex()[:200], m["data"][:200]))
         probs = c04_predicate(j, dumps[2], reopen)
         if probs:
             pred.append((j, name, script, probs, reopen))
@@ -285,9 +293,21 @@ def mutants(b, rng, full):
     bounds = [12] + [off + 4 + size + (size & 1) for (cid, off, size) in chunks if cid != b"SSND"]
     ins = [b"abcd\x00\x00\x00\x05hello\x00", b"JUNK\x00\x00\x00\x00", b"zz~ \x00\x00\x00\x02\x01\x02", b"SFX!\x00\x00\x00\x04\x00\x00\x00\x00",
            b"FVER\x00\x00\x00\x04\xa2\x80\x51\x40", b"ab\x01d\x00\x00\x00\x02xy", b"\x00\x00\x00\x00\x00\x00\x00\x00", b"odd1\x00\x00\x00\x03abc\x00",
-           b"NAME\x00\x00\x00\x02hi", b"FORM\x00\x00\x00\x04AIFF", b"big!\x00\x00\x9c\x40" + bytes(40000)]
+           b"NAME\x00\x00\x00\x02hi", b"FORM\x00\x00\x00\x04AIFF", b"big!\x00\x00\x9c\x40" + bytes(40000),
+           b"NAME\x00\x00\x00\x03abc\x00", b"AUTH\x00\x00\x00\x05hello\x00", b"ANNO\x00\x00\x00\x00", b"(c) \x00\x00\x00\x04copy",
+           b"NAME\x00\x00\x23\x28" + bytes(9000), b"AUTH\x00\x00\x1f\xfe" + bytes(8190), b"ANNO\x00\x00\x1f\xfd" + b"x" * 8189 + b"\x00",
+           b"APPL\x00\x00\x00\x03abc\x00", b"APPL\x00\x00\x00\x08m3gatext", b"APPL\x00\x00\x00\x07m3gaabc\x00", b"APPL\x00\x00\x00\x00",
+           b"COMT\x00\x00\x00\x0e\x00\x01\x00\x00\x00\x01\x00\x00\x00\x04text", b"COMT\x00\x00\x00\x0d\x00\x01\x00\x00\x00\x01\x00\x00\x00\x03abc\x00",
+           b"COMT\x00\x00\x00\x14\x00\x02\x00\x00\x00\x01\x00\x00\x00\x00\x00\x00\x00\x02\x00\x07\x00\x02hi", b"COMT\x00\x00\x00\x04\x00\x05\x00\x00",
+           b"INST\x00\x00\x00\x14" + bytes(range(20)), b"INST\x00\x00\x00\x06abcdef",
+           b"MARK\x00\x00\x00\x16\x00\x02\x00\x01\x00\x00\x00\x05\x03abc\x00\x02\x00\x00\x00\x09\x02hi\x00",
+           b"MARK\x00\x00\x00\x02\x00\x00", b"MARK\x00\x00\x00\x06\x0b\xb8abcd", b"MARK\x00\x00\x00\x0c\x00\x03\x00\x01\x00\x00\x00\x05\x03abc"]
+    # the four text chunks at both sides of their (different) size limits
+    lim = [b"%s%s%s" % (m, struct.pack(">I", n), b"t" * n + (b"\x00" if n & 1 else b"")) for (m, l) in ((b"(c) ", 8192), (b"AUTH", 8191), (b"NAME", 8190), (b"ANNO", 8190)) for n in (l - 1, l)]
+    for x in (lim if full else rng.sample(lim, 3)):
+        out.append(("limit:%s%d" % (x[:4].decode("latin1").strip(), struct.unpack(">I", x[4:8])[0]), b[:bounds[-1]] + x + b[bounds[-1]:]))
     for p in bounds:
-        for x in (ins if full else rng.sample(ins, 4)):
+        for x in (ins if full else rng.sample(ins, 8)):
             out.append(("ins@%d:%s" % (p, x[:4].hex()), b[:p] + x + b[p:]))
     out.append(("append-junk", b + b"tail\x00\x00\x00\x02ab"))
     out.append(("append-short", b + b"xy"))
